@@ -1,5 +1,6 @@
 import sys
 import math
+import numpy
 from . import python as this_module
 from .. import utils
 from .base import PrinterBase, modifier_base
@@ -149,6 +150,19 @@ class Printer(PrinterBase):
         return f"{var}: {typ} = {value}"
 
     def make_constant(self, like, value):
+        if isinstance(value, (complex, numpy.complexfloating)):
+            # str() of a complex value, e.g. (-4-0j), is an expression
+            # that loses the sign of a zero part
+            re, im = (self.make_constant(like, part) for part in (value.real, value.imag))
+            return f"complex({re}, {im})"
+        if isinstance(value, (float, numpy.floating)):
+            # str() of a non-finite value is not a Python expression
+            if value != value:
+                return "math.nan"
+            if value == math.inf:
+                return "math.inf"
+            if value == -math.inf:
+                return "(-math.inf)"
         return f"{value}"
 
     def show_value(self, var):
